@@ -623,7 +623,8 @@ func checkSaltedHash(c *Ctx, rule string) {
 					switch x := ss.X.(type) {
 					case *ssa.FieldAddr:
 						_, f := fieldAddrName(x)
-						saltOK = f == "privPassphraseSalt"
+						// using the stored salt is right only if this function does not replace it
+						saltOK = f == "privPassphraseSalt" && len(storesToField(fn, "privPassphraseSalt")) == 0
 					case *ssa.Alloc:
 						// local salt must be the value stored into privPassphraseSalt in this function
 						for _, s2 := range storesToField(fn, "privPassphraseSalt") {
